@@ -15,6 +15,8 @@ pub mod c06;
 pub mod c07;
 pub mod c08;
 pub mod c09;
+pub mod c10;
+pub mod c11;
 
 pub const SERVER_IP: IpAddr = IpAddr::V4(Ipv4Addr::new(192, 0, 2, 10));
 
@@ -28,6 +30,8 @@ pub fn all() -> Vec<Box<dyn Prop>> { vec![
         Box::new(c07::C07),
         Box::new(c08::C08),
         Box::new(c09::C09),
+        Box::new(c10::C10),
+        Box::new(c11::C11),
     ] }
 
 pub fn find(id: &str) -> Option<Box<dyn Prop>> { all().into_iter().find(|p| p.id() == id) }
